@@ -29,6 +29,10 @@ typedef struct {
 static const scen_t SCN[] = {
     /* H: minimal two-writer race on stream 0's non-empty queue (owner and a foreign thread push one task each) */
     { "push_push", 2, 2, 0, 2, 0, { { SCHED(0, 0, 1, 50) }, { SCHED(0, 0, 1, 60) } }, 0, 0 },     /* lower than the pre-filled 100,101: llp takes its detach-merge-reattach path */
+    /* I: the owner's low-priority push (llp: detach-merge-reattach) races with a foreign RING of 2 resp. 3 tasks: the ring lands on the
+     *    detached (empty) queue and must be intercepted completely on re-attach (seeded change C08-1 dropped its last task) */
+    { "detach_vs_ring2", 2, 2, 0, 2, 0, { { SCHED(0, 0, 1, 50) }, { SCHED(0, 0, 2, 60, 55) } }, 0, 0 },
+    { "detach_vs_ring3", 2, 2, 0, 2, 0, { { SCHED(0, 0, 1, 50), SEL(0) }, { SCHED(0, 1, 3, 60, 55, 40), SEL(1) } }, 0, 0 },
     /* A: a ring arrives on stream 0 while the neighbour looks for work */
     { "sched_vs_steal", 2, 2, 0, 0, 0, { { SCHED(0, 0, 2, 3, 7), SEL(0) }, { SEL(1), SEL(1) } }, 0, 0 },
     /* B: foreign push (distance 1) onto stream 0 while its owner selects and schedules */
@@ -162,8 +166,9 @@ static void run_scen(const scen_t *sc)
 }
 
 #define R(i) static void run_##i(void) { run_scen(&SCN[i]); }
-R(0) R(1) R(2) R(3) R(4) R(5) R(6) R(7)
-static void (*const RUNS[])(void) = { run_0, run_1, run_2, run_3, run_4, run_5, run_6, run_7 };
+R(0) R(1) R(2) R(3) R(4) R(5) R(6) R(7) R(8) R(9)
+static void (*const RUNS[])(void) = { run_0, run_1, run_2, run_3, run_4, run_5, run_6, run_7, run_8, run_9 };
+_Static_assert(sizeof(RUNS) / sizeof(RUNS[0]) == NSCN, "one run_<i> per scenario");
 
 static const char *g_sched = "lfq"; static int g_k = 2;
 static const char *g_only[8]; static int g_nonly = 0;   /* --only <substring>: keep only matching scenarios */
